@@ -4,12 +4,13 @@
 # The repository is /repo unless SEEDED_REPO names another git checkout of it (then VERIF_REPO is exported for the command).
 set -u
 patch="$(readlink -f "$1")"; shift
+verif="$(cd "$(dirname "$(readlink -f "$0")")/.." && pwd)"
 repo="${SEEDED_REPO:-/repo}"
 cd "$repo" || exit 3
 if [ -n "$(git status --porcelain --untracked-files=no)" ]; then echo "$repo not clean" >&2; exit 3; fi
 git apply "$patch" || { echo "patch does not apply" >&2; exit 3; }
 trap 'git -C "$repo" checkout -- . ' EXIT
-cd "$(dirname "$0")/.."
+cd "$verif"
 # evidence files describe the unchanged tree only: do not overwrite them from a run on a seeded change
 export VERIF_NO_EVIDENCE=1
 if [ "$repo" != "/repo" ]; then export VERIF_REPO="$repo"; fi
